@@ -19,28 +19,61 @@ MANIFEST = {
             "#E(F_p) = n for secp256k1 and secp256r1 (proved without Hasse: #E <= 2p+1 < 3n, n | #E by Lagrange, #E = 2n excluded by "
             "Cauchy and a generated kernel-checked certificate that x^3+ax+b has no root mod p), hence order•P = ∞ and multiply(P, e) = "
             "e•P for every curve point, every point other than infinity has order n, no point has y = 0; "
-            "points_for_x returns exactly the two points with that abscissa, even y first. Model tied to the code by differential "
-            "correspondence in both arithmetic configurations on every run, plus exhaustive toy-curve tables in the thorough tier (tests).",
-    "note": "libsecp256k1 is absent in this sandbox: its glue (ecdsa/native/secp256k1.py) is never executed. OpenSSL's EC_POINT_mul / "
-            "BN_mod_inverse are compared differentially with the pure path and the model, not verified. On a generic curve order•P = ∞ is stated for points "
+            "points_for_x returns exactly the two points with that abscissa, even y first. "
+            "NATIVE BACKENDS: the glue of native/openssl.py + native/bignum.py (Optimizations.multiply/raw_mul/inverse_mod, BignumType) "
+            "and of native/secp256k1.py (__mul__, multiply) is modelled statement by statement (Model/NativeCurve.lean) with the C "
+            "library an explicit parameter (LibCrypto / LibSecp256k1: the functions the glue calls, return codes included); what the "
+            "library is assumed to do is the hypothesis LibCryptoOk / LibSecpOk (Proofs/NativeContract.lean, NativeSecp.lean), never an "
+            "axiom, satisfiable by executable instances built from the pure model (C02_openssl_contract_satisfiable_*). Under it: "
+            "OpenSSL multiply(P, e) returns the coordinates of the pure multiply (reduced mod p) for every curve point - infinity, "
+            "unreduced/negative coordinates, a zero coordinate - and every integer e (C02_openssl_multiply_secp256k1/_secp256r1, no "
+            "torsion hypothesis); raw_mul and the blinded __mul__ agree for every scalar and blinding factor; inverse_mod agrees on "
+            "every operand for moduli > 1 (inverse, or AssertionError); Point + Point, generate_shared_public_key and the constructor "
+            "agree. Models tied to the code by differential correspondence in both arithmetic configurations on every run - the pure "
+            "model against the pure and OpenSSL classes, the GLUE model (over the pure-model libcrypto) against the real OpenSSL "
+            "class on boundary inputs (ops ec_ossl_*) - the contract probed on the real libcrypto (ossl_probe), plus exhaustive "
+            "toy-curve tables in the thorough tier (tests).",
+    "note": "TRUSTED, as explicit hypotheses of the C02_openssl_* / C02_libsecp_* theorems: LibCryptoOk (EC_POINT_mul computes e•P for a "
+            "finite reduced curve point and 0 < e < n; EC_POINT_get_affine_coordinates fails on infinity and leaves its outputs alone; "
+            "BN_mod_inverse returns the inverse or NULL; BN_mpi2bn decodes MPI; c_ulong is BN_ULONG) - its observable clauses are "
+            "checked against the real library on every run (group parameters of the NID = the Python constants, e = n and e = 0 give "
+            "rc 0 and untouched outputs, NULL for operands without inverse, MPI round trip); OpenSSL's internals are not verified. "
+            "libsecp256k1 is ABSENT from this sandbox: native/secp256k1.py is never executed, so its glue model and LibSecpOk are tied "
+            "to the source and to the library documentation BY READING ONLY (no correspondence possible); evidence.coverage.libsecp256k1 "
+            "says on every run whether the library is loadable in the environment of the run. Read-only findings in that glue: "
+            "multiply does not reduce coordinates (OverflowError / returns the Python value False for unreduced operands); "
+            "secp256k1_ecdsa_signature_normalize is called without argtypes. Fixed defect: OpenSSL inverse_mod ignored BN_mod_inverse's "
+            "NULL and handed the operand back (pure: AssertionError). "
+            "On a generic curve order•P = ∞ is stated for points "
             "with n•P = ∞ (C02_order_mul_partial); for secp256k1/secp256r1 it is proved for every curve point (C02_order_mul_secp256k1/_secp256r1); "
             "for BLS12-381 G1, which has a cofactor, it is refuted (known finding bls12-381-cofactor: r*(0,2) is reported as infinity).",
-    "technique": "Lean 4 proof (Mathlib group law, ring/field identities, kernel-checked Pratt certificates) + differential correspondence "
-                 "model vs implementation per backend + exhaustive toy-curve enumeration (test)",
+    "technique": "Lean 4 proof (Mathlib group law, ring/field identities, kernel-checked Pratt certificates; native glue over an explicit "
+                 "library contract) + differential correspondence model vs implementation per backend, glue model vs OpenSSL class, "
+                 "contract probes on the real library + exhaustive toy-curve enumeration (test)",
 }
 RULE = ("ops ec_add/ec_sub/ec_neg/ec_assoc/ec_mul/ec_rawmul/ec_blindmul/ec_genmul/ec_invmod(c)/ec_points_for_x/ec_on_curve/ec_sqrt/"
         "ec_shared on secp256k1, secp256r1 (both configurations), BLS12-381 (pure only), and toy curves built through pycoin's Generator; "
+        "ec_ossl_mul/rawmul/inv/add/blindmul/shared: the glue model of native/openssl.py against the OpenSSL class (e in {0, ±1, n-1, n, n+1, "
+        "2n, 2^256-1, -n}, P in {infinity, G, x = 0 on secp256r1, unreduced, off-curve}); ossl_probe: the library contract on the real libcrypto; "
         "ec_toy_* ops carry a whole addition / multiplication table of one toy curve; distinct = distinct op line; trivial = an operand is "
         "infinity or the scalar is 0/1")
 ASSUMPTIONS = [
-    "libsecp256k1 is not installed: the libsecp256k1 backend is never run; pure Python and OpenSSL-accelerated configurations are",
-    "OpenSSL (EC_POINT_mul, BN_mod_inverse) is compared differentially, not verified",
+    "libsecp256k1 is not installed: the libsecp256k1 backend is never run; its glue model (Secp.mul, Secp.multiply) and the contract LibSecpOk "
+    "are tied to native/secp256k1.py and the library documentation by reading only; pure Python and OpenSSL-accelerated configurations are run",
+    "libcrypto does what LibCryptoOk says (hypothesis of every C02_openssl_* theorem): EC_POINT_mul = e•P for finite reduced P and 0 < e < n, "
+    "get_affine fails on infinity leaving outputs untouched, BN_mod_inverse = inverse or NULL, BN_mpi2bn decodes MPI; probed on the real "
+    "library on every run where observable from Python, not verified",
+    "the EC_GROUP of NID_secp256k1 / NID_X9_62_prime256v1 is the curve the Python class is constructed with (probed: ossl_probe group)",
+    "integers handed to BignumType have fewer than 2^34 bits (BN_mpi2bn takes an int length; the model has the limit, the theorems the hypothesis Fits/CurveFits)",
     "the certificates that x^3+ax+b has no root mod p (translate/gen_curves.py, plain Python) are checked in the Lean kernel, not trusted",
-    "Python int arithmetic, pow(a, e, m) and ctypes glue are modelled, not verified",
+    "Python int arithmetic, pow(a, e, m), ctypes argument conversion and struct.pack are modelled, not verified",
     "toy-curve enumeration (all points/pairs/triples, k in [-2n, 2n]) is a test, not a theorem",
 ]
 TRUSTED = ["translate/gen_curves.py reads (p,a,b,Gx,Gy,n) from the live generator objects; Pratt certificates come from sympy and are "
-           "checked in the Lean kernel, so sympy is not trusted; likewise the no-root certificates noroot_* (inverse of X^p - X modulo the cubic)"]
+           "checked in the Lean kernel, so sympy is not trusted; likewise the no-root certificates noroot_* (inverse of X^p - X modulo the cubic)",
+           "lean/Pycoin/Proofs/NativeContract.lean: LibCryptoSpec / LibCryptoOk - the statement about libcrypto every OpenSSL theorem assumes",
+           "lean/Pycoin/Proofs/NativeSecp.lean: LibSecpSpec / LibSecpOk - the statement about libsecp256k1 (never compared with a real library)",
+           "harness/props/curve_common.py:_ossl_probe - the raw ctypes calls that ask the real libcrypto what the contract says"]
 
 
 def _bls_cofactor(v) -> bool:
@@ -67,8 +100,10 @@ def trivial(op: str) -> bool:
         return "inf" in a[2:]
     if a[0] == "ec_mul":
         return a[2] == "inf" or a[3] in ("0", "1")
-    if a[0] in ("ec_rawmul", "ec_genmul"):
+    if a[0] in ("ec_rawmul", "ec_genmul", "ec_ossl_rawmul"):
         return a[2] in ("0", "1")
+    if a[0] == "ec_ossl_mul":
+        return a[2] == "inf" or a[3] in ("0", "1")
     return False
 
 
@@ -278,6 +313,8 @@ def _oracle(op: str, out: str):
         if ref != out:
             return "shared key differs from d*Q"
         return _cross(op, out)
+    if k in _OSSL_TWIN:
+        return _ossl_oracle(a, out)
     if k == "ec_toy_addtable":
         return _check_addtable(a[1], out)
     if k == "ec_toy_multable":
@@ -290,6 +327,36 @@ def _oracle(op: str, out: str):
             if b != r:
                 return "blinded multiplication differs from raw_mul at k index %d" % i
         return None
+    return None
+
+
+# ops whose model is the GLUE model (Ossl.* over the pure-model libcrypto): the property on the implementation alone is
+# "the OpenSSL class returns what the pure class returns for the same input"
+_OSSL_TWIN = {"ec_ossl_mul": "ec_mul", "ec_ossl_rawmul": "ec_rawmul", "ec_ossl_inv": "ec_invmodc", "ec_ossl_add": "ec_add",
+              "ec_ossl_blindmul": "ec_blindmul", "ec_ossl_shared": "ec_shared"}
+
+
+def _ossl_oracle(a, out):
+    k, tok = a[0], a[1]
+    name = split_curve(tok)[0]
+    if k == "ec_ossl_mul" and not on_curve(tok, parse_pt(a[2])):
+        return None  # a raw off-curve tuple handed to the glue: outside the quantifier (error class compared with the model only)
+    if k in ("ec_ossl_add",) and not _in_quantifier(tok, parse_pt(a[2]), parse_pt(a[3])):
+        return None
+    if k == "ec_ossl_shared" and not on_curve(tok, parse_pt(a[3])):
+        return None
+    if k == "ec_ossl_inv" and int(a[3]) <= 1:
+        return None
+    ref = cc.impl(" ".join([_OSSL_TWIN[k], name + "/pure"] + a[2:]))
+
+    def canon_out(t):
+        if not t.startswith("ok ") or k == "ec_ossl_inv":
+            return t
+        return "ok " + " ".join(_canon_s(tok, w) for w in t[3:].split(" "))
+    if canon_out(ref) != canon_out(out):
+        return "the OpenSSL class and the pure class disagree on identical input: OpenSSL %s, pure %s" % (out[:160], ref[:160])
+    if k == "ec_ossl_mul" and out.startswith("ok ") and not reduced(tok, parse_pt(out[3:])):
+        return "the OpenSSL multiply returned unreduced coordinates"
     return None
 
 
@@ -404,6 +471,13 @@ def neighbours(op: str, rng):
         for d in (-1, 1, 2):
             res.append("ec_mul %s %s %d" % (a[1], a[2], e + d))
         res.append("ec_mul %s %s %d" % (a[1], a[2], e % 41))
+    if a[0] == "ec_ossl_mul":
+        e = int(a[3])
+        res += ["ec_ossl_mul %s %s %d" % (a[1], a[2], e + d) for d in (-1, 1)]
+        res.append("ec_mul %s %s %d" % (a[1], a[2], e))
+    if a[0] == "ec_ossl_rawmul":
+        res += ["ec_ossl_rawmul %s %d" % (a[1], int(a[2]) + d) for d in (-1, 1)]
+        res.append("ec_rawmul %s %s" % (a[1], a[2]))
     if a[0] in ("ec_rawmul", "ec_genmul", "ec_blindmul"):
         e = int(a[2])
         gx, gy = consts(a[1])[3:5]
@@ -434,8 +508,71 @@ def _scalars(rng, n, p):
             (n - 1) // 2, (n + 1) // 2, 2 ** 255, 2 ** 128, -(2 ** 256)]
 
 
+def _gen_ossl(ctx, emit, tok, name, p, ca, cb, G, n, small):
+    """boundary inputs of the glue of native/openssl.py, answered on the model side by the GLUE MODEL over the pure-model
+    libcrypto; and probes of the contract on the real library"""
+    rng = ctx.rng
+    P3 = small[3]
+    bnd = (0, 1, -1, n - 1, n, n + 1, 2 * n, 2 ** 256 - 1, -n)
+    for e in bnd:
+        emit("ec_ossl_mul %s %s %d" % (tok, show_pt(G), e), "ossl-glue")
+        emit("ec_ossl_rawmul %s %d" % (tok, e), "ossl-glue")
+    for e in (0, 5, n):
+        emit("ec_ossl_mul %s inf %d" % (tok, e), "ossl-glue")
+    # unreduced / negative coordinates (the glue reduces them before BignumType sees them)
+    for sx, sy, e in ((p, 0, 2), (0, -p, n - 1), (-p, 2 * p, 1), (3 * p, -2 * p, n + 1), (p, p, n)):
+        emit("ec_ossl_mul %s %d,%d %d" % (tok, P3[0] + sx, P3[1] + sy, e), "ossl-glue")
+    # a zero coordinate (x = 0 exists on secp256r1): not the point at infinity
+    y0 = pow(cb % p, (p + 1) // 4, p)
+    if (y0 * y0 - cb) % p == 0 and y0 != 0:
+        for e in (1, 2, n - 1, n, -1):
+            emit("ec_ossl_mul %s 0,%d %d" % (tok, y0, e), "ossl-glue")
+        emit("ec_ossl_add %s 0,%d 0,%d" % (tok, y0, y0), "ossl-glue")
+        emit("ossl_probe %s mul 0,%d 3" % (tok, y0), "ossl-contract")
+    # off the curve: the error class (NoSuchPointError from the final self.Point)
+    emit("ec_ossl_mul %s %d,%d 5" % (tok, G[0], G[1] + 1), "ossl-glue")
+    emit("ec_ossl_mul %s %d,%d %d" % (tok, G[0] + 1, G[1], n - 1), "ossl-glue")
+    e = rng.randrange(1, n)
+    emit("ec_ossl_mul %s %s %d" % (tok, show_pt(P3), e), "ossl-glue")
+    emit("ec_ossl_mul %s %s %d" % (tok, show_pt(P3), -e - n), "ossl-glue")
+    # inverse_mod: invertible, and the operands that have no inverse (0, multiples of m, a common factor)
+    for m in (n, p):
+        for x in (1, 2, m - 1, m + 1, -1, 2 ** 256 - 1, 0, m, -m, 2 * m):
+            emit("ec_ossl_inv %s %d %d" % (tok, x, m), "ossl-glue")
+    for x, m in ((3, 7), (-3, 7), (6, 9), (35, 49), (10, 15), (2 ** 300 + 1, 2 ** 255 - 19)):
+        emit("ec_ossl_inv %s %d %d" % (tok, x, m), "ossl-glue")
+    # Point + Point through OpenSSL's inverse_mod: doubling, generic, P + (-P), unreduced
+    P1, P2 = small[1], small[2]
+    for A, B in ((P1, P1), (P1, P2), (P1, (P1[0], p - P1[1])), ((P2[0] + p, P2[1] - p), (P2[0], P2[1] + 2 * p))):
+        emit("ec_ossl_add %s %s %s" % (tok, show_pt(A), show_pt(B)), "ossl-glue")
+    for e, b in ((5, 0), (n - 1, n - 5), (0, 7), (-1, 2 ** 256 - 1), (n, n)):
+        emit("ec_ossl_blindmul %s %d %d" % (tok, e, b), "ossl-glue")
+    emit("ec_ossl_shared %s %d %s" % (tok, n - 2, show_pt(P3)), "ossl-glue")
+    emit("ec_ossl_shared %s 7 %d,%d" % (tok, P3[0] + p, P3[1]), "ossl-glue")
+    # ---- the contract of the theorems (LibCryptoOk) asked of the real library: return codes and outputs of the raw calls
+    emit("ossl_probe %s group" % tok, "ossl-contract")
+    for e in (1, 2, n - 1, rng.randrange(1, n)):
+        emit("ossl_probe %s mul %s %d" % (tok, show_pt(G), e), "ossl-contract")
+    # e = n, e = 0: the product is infinity, get_affine reports failure and leaves the output bignums as they were
+    emit("ossl_probe %s mul %s %d" % (tok, show_pt(G), n), "ossl-contract")
+    emit("ossl_probe %s mul %s 0" % (tok, show_pt(P3)), "ossl-contract")
+    for x, m in ((3, 7), (0, n), (n, n), (6, 9), (n - 1, n), (rng.randrange(1, p), p)):
+        emit("ossl_probe %s inv %d %d" % (tok, x, m), "ossl-contract")
+    for v in (0, 1, -1, 255, 256, -256, 2 ** 64 - 1, 2 ** 64, -(2 ** 64), 2 ** 255, p, -n, rng.getrandbits(521)):
+        emit("ossl_probe %s bn %d" % (tok, v), "ossl-contract")
+
+
 def gen(ctx, emit):
     rng = ctx.rng
+    # libsecp256k1: its glue is tied to the source by reading only.  Whether the library IS present in this environment
+    # is recorded in the evidence (a note, never a violation), so that the gap is visible where it matters
+    hello = cc.worker_hello("openssl")
+    ctx.extra_cov["libsecp256k1"] = {
+        "present": "libsecp256k1=1" in hello, "worker": hello,
+        "note": ("libsecp256k1 IS loadable here: native/secp256k1.py is executed by pycoin but its glue model (Model/NativeCurve.lean, "
+                 "Secp.*) has never been compared with it - extend the correspondence before relying on C01/C02 in this environment")
+                if "libsecp256k1=1" in hello else
+                "libsecp256k1 not loadable: native/secp256k1.py is never executed; its glue model is tied to the source by reading only"}
     # ---------------- boundary corpus: inverse_mod
     for m in (2, 3, 7, 17, 97, 2 ** 31 - 1):
         for x in (1, 2, m - 1, m + 1, -1, -m + 1, 2 * m - 1, 5 * m + 1, -7 * m - 1, 0, m, -m, 2 * m):
@@ -514,6 +651,8 @@ def gen(ctx, emit):
                     emit("ec_neg %s %s" % (tok, show_pt(Z)), "zero-coordinate")
                     emit("ec_shared %s 5 %s" % (tok, show_pt(Z)), "zero-coordinate")
                     emit("ec_shared %s %d %s" % (tok, n - 2, show_pt(Z)), "zero-coordinate")
+            if cfg == "openssl":
+                _gen_ossl(ctx, emit, tok, name, p, ca, cb, G, n, small)
             for x in (0, 1, 2, 3, 4, 5, 6, 7, p - 1, p - 2, p - 3, P1[0], P2[0]):
                 emit("ec_points_for_x %s %d" % (tok, x))
             for x in (p, p + 1, -1, 2 ** 256, P1[0] + p):  # outside 0 <= x < p: correspondence only
